@@ -114,10 +114,17 @@ func ruleJSON2(c *Ctx) {
 		fn := Callee(p, call)
 		return fn != nil && fn.Name() == "checkValid" && len(call.Args) == 2 && w.Src(call.Args[0]) == fd.Type.Params.List[0].Names[0].Name
 	})
-	good := iv >= 0 && iv+1 < len(fd.Body.List)
+	good := iv >= 0
 	if good {
-		is, ok := fd.Body.List[iv+1].(*ast.IfStmt)
-		good = ok && terminates(is.Body) && strings.Contains(w.Src(is.Cond), "!= nil")
+		// `err := checkValid(…); if err != nil { return … }` or the same with the call in the if's init
+		if is, ok := fd.Body.List[iv].(*ast.IfStmt); ok {
+			good = is.Init != nil && terminates(is.Body) && strings.Contains(w.Src(is.Cond), "!= nil")
+		} else if iv+1 < len(fd.Body.List) {
+			is, ok := fd.Body.List[iv+1].(*ast.IfStmt)
+			good = ok && terminates(is.Body) && strings.Contains(w.Src(is.Cond), "!= nil")
+		} else {
+			good = false
+		}
 	}
 	first := true
 	for i, s := range fd.Body.List {
